@@ -5,7 +5,7 @@ From Qv Require Import Common.Bytes Gen.GenMx Model.Mx Model.MxRoute Model.MxDns
   Spec.MxSpec Spec.MxRouteSpec Spec.MxDnsSpec
   Gen.GenNetio Gen.GenQremote Gen.GenStarttls Model.NetRead Model.TlsClient Model.QrConnect Model.MxConnect Spec.MxConnectSpec
   Proofs.MxSortProofs Proofs.MxConnProofs Proofs.MxFilterProofs Proofs.MxRouteProofs Proofs.MxDnsProofs
-  Proofs.QrConnectProofs Proofs.MxConnectProofs.
+  Proofs.QrConnectProofs Proofs.MxConnectProofs Proofs.MxSortComplete.
 Import ListNotations.
 
 (** sortmx (with fixes/C20-sortmx-v6first.diff applied): for every non-empty list of MX entries
@@ -28,12 +28,26 @@ Theorem C20_sortmx_stable : forall l p v6,
 Proof. exact sortmx_stable. Qed.
 Print Assumptions C20_sortmx_stable.
 
-(** the boolean checker that is run on the outputs of the C sortmx accepts only lists that
-    satisfy the specification above *)
+(** the boolean checker that is run on the outputs of the C sortmx DECIDES the specification above: it
+    accepts a list exactly when it is a rearrangement of the input that ascends in preference with
+    IPv6-containing entries before IPv4-only ones at equal preference and IPv6 addresses first inside each
+    entry.  So it accepts every order a correct sort may produce, stable or not; that sortmx() yields the
+    STABLE one among them is C20_sortmx_stable for the model and the differential run for the C. *)
 Theorem C20_spec_checker_sound : forall inp out,
   spec_ok_C20_sort inp out = true -> sort_spec inp out.
 Proof. exact spec_ok_sort_sound. Qed.
 Print Assumptions C20_spec_checker_sound.
+
+Theorem C20_spec_checker_complete : forall inp out,
+  spec_ok_C20_sort inp out = true <-> sort_spec inp out.
+Proof. exact spec_ok_sort_iff. Qed.
+Print Assumptions C20_spec_checker_complete.
+
+(** in particular no false alarm on what sortmx() returns *)
+Theorem C20_spec_checker_accepts_sortmx : forall l,
+  l <> [] -> Forall nonempty l -> exists out, sortmx l = Ok out /\ spec_ok_C20_sort l out = true.
+Proof. exact checker_accepts_sortmx. Qed.
+Print Assumptions C20_spec_checker_accepts_sortmx.
 
 (** tryconn, called any number of times (connect_mx calls it again after a failed greeting or
     EHLO) on a list on which nothing has been tried, for every sequence of connect() outcomes:
